@@ -92,6 +92,12 @@ def run(c, chk):
     lex = c.lex
     ambient_errno(c, chk)
     refused_include_leaves_nothing(c, chk)
+    # R8.10: what "+=" does depends on the text, not on flags a refused assignment of an earlier parse left behind
+    from . import c01 as _c01
+    from .. import parsermodel as _pm
+    chk.rule('R8.10', 'the parser clears CFGF_RESET on every "+=" (appending never drops the values because an earlier, refused assignment left the bit set)')
+    _c01.reset_typestate(c, chk_proxy(chk, {'R1.3': 'R8.10'}), _pm.ParserModel(c))
+
     # R8.9: the search path of the root outlives everything that happens to a section between two parses
     chk.rule('R8.9', 'replacing or removing a section never releases the search path it only borrows from the root (the next parse would resolve names through a freed list)')
     c07.searchpath_rule(c, chk_proxy(chk, {'R7.3': 'R8.9'}), sym.Explorer(c.modules, max_visits=2, mod_sets=c.mod_sets, max_paths=200000))
@@ -281,6 +287,12 @@ class chk_proxy(object):
     @property
     def extra(self):
         return self._chk.extra
+
+    @property
+    def rules(self):
+        # (ids as the wrapped rule implementation knows them)
+        inv = {v: k for k, v in self._map.items()}
+        return set(inv.get(r, r) for r in getattr(self._chk, 'rules', {}))
 
     @property
     def tier(self):
